@@ -13,6 +13,7 @@ import (
 	"go.opentelemetry.io/otel"
 	"go.opentelemetry.io/otel/attribute"
 	"go.opentelemetry.io/otel/metric"
+	"go.opentelemetry.io/otel/sdk/instrumentation"
 	sdkmetric "go.opentelemetry.io/otel/sdk/metric"
 	"go.opentelemetry.io/otel/sdk/metric/metricdata"
 
@@ -243,6 +244,19 @@ func viewConfig(cfg int) ([]sdkmetric.View, map[string][]streamSpec, string) {
 		specs["oci"] = []streamSpec{{out: "oci", agg: "hist"}}
 		specs["ogi"] = []streamSpec{{out: "ogi", agg: "hist-nosum"}}
 		specs["ci"] = []streamSpec{{out: "ci", agg: "hist"}}
+	case 11:
+		// a view named "*" still has to honour its other criteria
+		name = "wildcard name combined with kind / unit / scope criteria"
+		views = append(views, sdkmetric.NewView(sdkmetric.Instrument{Name: "*", Kind: sdkmetric.InstrumentKindHistogram}, sdkmetric.Stream{Aggregation: sdkmetric.AggregationDrop{}}),
+			sdkmetric.NewView(sdkmetric.Instrument{Name: "*", Unit: "no-such-unit"}, sdkmetric.Stream{AttributeFilter: attribute.NewAllowKeysFilter("a")}),
+			sdkmetric.NewView(sdkmetric.Instrument{Name: "*", Scope: instrumentation.Scope{Name: "another-scope"}}, sdkmetric.Stream{Aggregation: sdkmetric.AggregationDrop{}}),
+			sdkmetric.NewView(sdkmetric.Instrument{Name: "*", Kind: sdkmetric.InstrumentKindObservableGauge}, sdkmetric.Stream{AttributeFilter: attribute.NewDenyKeysFilter("a")}))
+		specs["hf"] = []streamSpec{{out: "hf", agg: "drop"}}
+		{
+			sp := def("ogi")
+			sp.filter = "deny-a"
+			specs["ogi"] = []streamSpec{sp}
+		}
 	case 8:
 		name = "valid views next to an incompatible sibling view"
 		views = append(views, sdkmetric.NewView(sdkmetric.Instrument{Name: "ci"}, sdkmetric.Stream{Name: "ci_valid", AttributeFilter: attribute.NewAllowKeysFilter("a")}),
@@ -342,7 +356,7 @@ func runHistory(k *vf.Case) {
 		fmt.Sscan(Lname, &L)
 	}
 	defer os.Unsetenv("OTEL_GO_X_CARDINALITY_LIMIT")
-	cfg := r.Intn(11)
+	cfg := r.Intn(12)
 	views, specs, cfgName := viewConfig(cfg)
 	dr := sdkmetric.NewManualReader(sdkmetric.WithTemporalitySelector(func(sdkmetric.InstrumentKind) metricdata.Temporality { return metricdata.DeltaTemporality }))
 	cr := sdkmetric.NewManualReader()
@@ -365,8 +379,19 @@ func runHistory(k *vf.Case) {
 	ui, e4 := m.Int64UpDownCounter("ui")
 	hf, e5 := m.Float64Histogram("hf")
 	gi, e6 := m.Int64Gauge("gi")
-	_, e7 := m.Int64ObservableCounter("oci", metric.WithInt64Callback(replayI("oci")))
-	_, e8 := m.Int64ObservableGauge("ogi", metric.WithInt64Callback(replayI("ogi")))
+	// a third of the histories have no asynchronous instrument at all: a pipeline without callbacks takes
+	// other paths (a collection on a done context then succeeds, for one)
+	noAsync := r.Chance(1, 3)
+	var e7, e8 error
+	if !noAsync {
+		_, e7 = m.Int64ObservableCounter("oci", metric.WithInt64Callback(replayI("oci")))
+		_, e8 = m.Int64ObservableGauge("ogi", metric.WithInt64Callback(replayI("ogi")))
+	} else {
+		k.C.Count("histories_without_callbacks", 1)
+		for _, inst := range []string{"oci", "ogi"} {
+			delete(specs, inst)
+		}
+	}
 	if cfg == 8 {
 		// the incompatible sibling views make creation report an error next to a usable instrument
 		if e1 == nil || e5 == nil {
@@ -411,6 +436,13 @@ func runHistory(k *vf.Case) {
 			}
 		}
 	}
+	asyncFed := map[string]bool{} // output streams fed by asynchronous instruments
+	for inst := range isAsync {
+		for _, sp := range specs[inst] {
+			asyncFed[sp.out] = true
+		}
+	}
+	failedAttempt := map[string]bool{} // reader -> a collection attempt on a done context has failed in this history
 	dropped := map[string]bool{}
 	for _, inst := range instruments {
 		for _, sp := range specs[inst] {
@@ -488,7 +520,7 @@ func runHistory(k *vf.Case) {
 			}
 			record(ms)
 			apply(ms)
-			if i%3 == 0 { // async observation scripted for this cycle
+			if i%3 == 0 && !noAsync { // async observation scripted for this cycle
 				am := meas{inst: vf.Pick(r, []string{"oci", "ogi"}), a: st[0], b: st[1], v: int64(1 + r.Intn(500))}
 				script = append(script, am)
 			}
@@ -504,11 +536,28 @@ func runHistory(k *vf.Case) {
 		for _, am := range script {
 			apply(am)
 		}
-		if err := dr.Collect(ctx, &drm); err != nil {
+		// in some cycles the collection is first attempted with a context that is already done: it either
+		// fails without consuming anything (the collection that follows then reports everything) or it
+		// succeeds and is this cycle's collection
+		collect := func(name string, rd *sdkmetric.ManualReader, rm *metricdata.ResourceMetrics) error {
+			if r.Chance(1, 5) {
+				dead, cancel := context.WithCancel(ctx)
+				cancel()
+				k.C.Count("collections_attempted_with_a_done_context", 1)
+				if err := rd.Collect(dead, rm); err == nil {
+					return nil
+				}
+				// the attempt failed after the callbacks had run: remembered, because what they observed
+				// stays in the asynchronous aggregates (known finding) - synchronous streams are unaffected
+				failedAttempt[name] = true
+			}
+			return rd.Collect(ctx, rm)
+		}
+		if err := collect("delta", dr, &drm); err != nil {
 			fail("collect-error", "", err.Error())
 			return
 		}
-		if err := cr.Collect(ctx, &crm); err != nil {
+		if err := collect("cumulative", cr, &crm); err != nil {
 			fail("collect-error", "", err.Error())
 			return
 		}
@@ -555,7 +604,11 @@ func runHistory(k *vf.Case) {
 					if l.agg != "gauge" && (tg != tw || cg != cw) {
 						class = "total-not-conserved"
 					}
-					fail(class, rd+" "+l.agg, fmt.Sprintf("cycle %d stream %s (%d distinct sets this cycle, first-seen order %v): %s\n totals got %v/%d want %v/%d", cyc, out, len(l.seen), head(l.order, 8), d, tg, cg, tw, cw))
+					key := rd + " " + l.agg
+					if asyncFed[out] && failedAttempt[rd] {
+						key += " [stream fed by callbacks, after a collection attempt failed on a done context]"
+					}
+					fail(class, key, fmt.Sprintf("cycle %d stream %s (%d distinct sets this cycle, first-seen order %v): %s\n totals got %v/%d want %v/%d", cyc, out, len(l.seen), head(l.order, 8), d, tg, cg, tw, cw))
 				}
 				k.C.Count("streams_compared", 1)
 			}
